@@ -238,7 +238,112 @@ def run(ck, prog):
                       detail={"recurrence": "the running point is multiplied by ITSELF in the loop: exponents -1, -2, -4, -8, ... instead of "
                                             "-1, -2, -3, -4, ...; with three or more exemptions the exempted steps are not the last ones"})
                 return
+    # --- form C: x = g^e0; for _ in lo..hi { push(x); x *= m } with m = g or g^-1 (loop-invariant) --------------------------------------------
+    verdict = _incremental_form(f, g, pushes, n_sym, k_sym, root)
+    if verdict is not None:
+        good, detail = verdict
+        ck.ob("EXEMPT", key, good,
+              "the exemption points are g^s for the last k steps s of the enforcement domain, for every legal k (incremental form: start exponent, "
+              "step and count evaluated for n in {8, 16, 32} and every k in 1..=n/2+1)", loc=f0.loc(), detail=detail)
+        return
     return undecided("a push loop whose recurrence is not one of the recognised forms builds the exemption points")
+
+
+def eval_tree(e, env):
+    """integer value of an expr_at tree; env maps ('p', i) parameters to numbers; None when a leaf is unknown"""
+    e = strip_conv(e)
+    if e[0] == "k":
+        return e[1] if isinstance(e[1], int) else None
+    if e in env:
+        return env[e]
+    if e[0] == "op":
+        a, b = eval_tree(e[2], env), eval_tree(e[3], env)
+        if a is None or b is None:
+            return None
+        try:
+            return {"Add": a + b, "Sub": a - b, "Mul": a * b, "Div": a // b if b else None, "Rem": a % b if b else None,
+                    "Shl": a << b if 0 <= b < 128 else None, "Shr": a >> b if 0 <= b < 128 else None}.get(e[1])
+        except Exception:
+            return None
+    if e[0] == "call":
+        name = e[1].split("::")[-1]
+        vals = [eval_tree(x, env) for x in e[2]]
+        if any(v is None for v in vals):
+            return None
+        if len(vals) == 2 and name in ("min", "max", "div_ceil", "saturating_sub", "wrapping_sub", "pow"):
+            a, b = vals
+            return {"min": min(a, b), "max": max(a, b), "div_ceil": -(-a // b) if b else None, "saturating_sub": max(a - b, 0),
+                    "wrapping_sub": a - b, "pow": a ** b if 0 <= b < 64 else None}[name]
+        if len(vals) == 1 and name in ("ilog2", "trailing_zeros") and vals[0] > 0:
+            return vals[0].bit_length() - 1
+    return None
+
+
+def _incremental_form(f, g, pushes, n_sym, k_sym, root):
+    def is_gen(e):
+        """+1 if e = get_root_of_unity(log2 n), -1 if it is its inverse, else None"""
+        e = strip_conv(e)
+        if e[0] == "call" and e[1].endswith("get_root_of_unity") and len(e[2]) == 1:
+            lg = strip_conv(e[2][0])
+            return 1 if lg[0] == "call" and lg[1].endswith(("ilog2", "trailing_zeros", "log2")) and strip_conv(lg[2][0]) == n_sym else None
+        if e[0] == "call" and e[1].endswith("FieldElement::inv") and len(e[2]) == 1:
+            s1 = is_gen(e[2][0])
+            return -s1 if s1 else None
+        return None
+    for b, t in pushes:
+        if (b, S) not in reach(f, [(b, T)], include_starts=False):
+            continue
+        x = root(op_local(t["args"][1], pure=True))
+        if x is None:
+            continue
+        loop_blocks = {bb for bb in range(len(f.blocks)) if (bb, S) in reach(f, [(b, T)], include_starts=False) and (b, S) in reach(f, [(bb, T)], include_starts=False)} | {b}
+        # the multiplier
+        step = None
+        for bb, tt in f.calls():
+            if bb not in loop_blocks:
+                continue
+            cn = callee_name(tt) or ""
+            if cn.endswith("MulAssign::mul_assign") and len(tt["args"]) == 2:
+                tl = op_local(tt["args"][0])
+                if x in {root(y) for y in (g.ref_of.get(tl, set()) | {tl})}:
+                    step = is_gen(expr_at(f, tt["args"][1]))
+        if step is None:
+            continue
+        # the start point: the definition of x outside the loop
+        inits = [(bb, i, st) for bb, i, st in f.defs.get(x, []) if bb not in loop_blocks]
+        if len(inits) != 1:
+            continue
+        bb, i, st = inits[0]
+        e = strip_conv(expr_at(f, st["args"][0]) if i == "T" and False else (("call", callee_name(st) or "?", tuple(expr_at(f, a) for a in st["args"]), bb) if i == "T" else expr_at(f, st["rv"].get("a") or {"copy": st["rv"].get("p", {})})))
+        if not (e[0] == "call" and e[1].endswith(("FieldElement::exp", "FieldElement::exp_vartime")) and len(e[2]) == 2 and is_gen(e[2][0]) == 1):
+            continue
+        e0 = e[2][1]
+        # the trip count: the range the loop iterates over
+        rng = None
+        for nb, nt in f.calls():
+            if nb in loop_blocks and (callee_name(nt) or "").endswith("Iterator::next"):
+                it = strip_conv(expr_at(f, nt["args"][0]))
+                while it[0] == "call" and it[1].endswith("IntoIterator::into_iter") and it[2]:
+                    it = strip_conv(it[2][0])
+                if it[0] == "agg" and str(it[1]).endswith("range::Range") and len(it[2]) == 2:
+                    rng = it[2]
+        if rng is None:
+            continue
+        bad = None
+        for n in (8, 16, 32):
+            for k in range(1, n // 2 + 2):
+                env = {n_sym: n, k_sym: k}
+                start, lo, hi = eval_tree(e0, env), eval_tree(rng[0], env), eval_tree(rng[1], env)
+                if start is None or lo is None or hi is None:
+                    return None
+                got = sorted({(start + step * j) % n for j in range(max(hi - lo, 0))})
+                want = list(range(n - k, n))
+                if got != want and bad is None:
+                    bad = (n, k, got, want)
+        if bad is None:
+            return True, None
+        return False, f"n = {bad[0]}, k = {bad[1]}: exempted steps {bad[2]}, the last k steps are {bad[3]}"
+    return None
 
 
 def _copies_of(f, x):
